@@ -92,7 +92,8 @@ class ValueGen:
         if k == "unit":
             return None
         if k == "write":
-            return {"chunks": [d(TEXT.filter(lambda s_: "\u0000" not in s_)) for _ in range(d(st.integers(0, 4)))], "cap": d(st.sampled_from([0, 1, 4, 64]))}
+            return {"chunks": [d(TEXT.filter(lambda s_: "\u0000" not in s_)) for _ in range(d(st.integers(0, 4)))], "cap": d(st.sampled_from([0, 1, 4, 64])),
+                    "fixed": d(st.sampled_from([None, None, 1, 2, 5, 9, 17, 40]))}
         raise ValueError(t)
 
 
@@ -698,7 +699,7 @@ def render_rust(prog, plan, reject=None):
     return src + "\n" + layout_fn(prog, plan)
 
 
-def render_c(prog, plan, protos, header_names, history=None):
+def render_c(prog, plan, protos, header_names, history=None, fixed_writers=True):
     """history: None, or {"order": [(plan index, call index)], "destroy_after": {step: [(type, id)]}, "final": [(type, id)]}"""
     ms = methods_in_order(prog)
     src = C_HELPERS + "static void* dv_pool[4096];\n" + "".join('#include "%s"\n' % h for h in header_names)
@@ -750,12 +751,20 @@ def render_c(prog, plan, protos, header_names, history=None):
                 else:
                     args.append(g.arg(["struct", it["name"], []], c["self"], cty))
             wvar = None
+            wfixed = None
             for q in m["params"]:
                 cty = params[pi][0] if pi < len(params) else None
                 pi += 1
                 if q[1][0] == "write":
                     wvar = g.tmp("w")
-                    g.pre.append("DiplomatWrite* %s = diplomat_buffer_write_create(%d);" % (wvar, c["write"]["cap"]))
+                    if c["write"].get("fixed") and fixed_writers:
+                        # caller-owned fixed buffer: diplomat_simple_write keeps one byte for the NUL the macro's flush() writes
+                        n_ = c["write"]["fixed"]
+                        g.pre.append("char %s_buf[%d + 8]; memset(%s_buf, 0xEE, sizeof(%s_buf)); DiplomatWrite %s_obj = diplomat_simple_write(%s_buf, %d); DiplomatWrite* %s = &%s_obj;" % (
+                            wvar, n_, wvar, wvar, wvar, wvar, n_, wvar, wvar))
+                        wfixed = n_
+                    else:
+                        g.pre.append("DiplomatWrite* %s = diplomat_buffer_write_create(%d);" % (wvar, c["write"]["cap"]))
                     args.append(wvar)
                 else:
                     args.append(g.arg(q[1], c["args"][q[0]], cty))
@@ -775,7 +784,11 @@ def render_c(prog, plan, protos, header_names, history=None):
                         g.post.append('printf("csize %d %%zu\\n", dv_sz);' % p_["mid"])
                 else:
                     src += "    printf(\"ret %d %d \");\n    %s\n" % (p_["mid"], k, g.show(m["ret"], "r"))
-            if wvar:
+            if wvar and wfixed:
+                src += ('    printf(" write=s\\""); { size_t n = %s->len; for (size_t i = 0; i < n; i++) printf("%%02x", (unsigned)(unsigned char)%s_buf[i]); } '
+                        'printf("\\" wfail=%%d nul=%%d guard=%%d", (int)%s->grow_failed, (int)(%s->len < %d && %s_buf[%s->len] == 0), (int)((unsigned char)%s_buf[%d] == 0xEE));\n') % (
+                            wvar, wvar, wvar, wvar, wfixed, wvar, wvar, wvar, wfixed)
+            elif wvar:
                 src += '    printf(" write=s\\""); { char* b = diplomat_buffer_write_get_bytes(%s); size_t n = diplomat_buffer_write_len(%s); for (size_t i = 0; i < n; i++) printf("%%02x", (unsigned)(unsigned char)b[i]); } printf("\\"");\n    diplomat_buffer_write_destroy(%s);\n' % (wvar, wvar, wvar)
             for (a, n, p) in g.mut_after:
                 src += '    printf(" mut=["); for (size_t i = 0; i < %d; i++) { if (i) printf(","); %s } printf("]");\n' % (n, g.show(["prim", p], "%s[i]" % a))
@@ -793,7 +806,7 @@ def render_c(prog, plan, protos, header_names, history=None):
     return src
 
 
-def expected_lines(prog, plan, history=None, reject=None):
+def expected_lines(prog, plan, history=None, reject=None, fixed_writers=True):
     """(ret lines, call-log lines) expected on stdout"""
     ms = methods_in_order(prog)
     rets, logs = [], []
@@ -815,7 +828,18 @@ def expected_lines(prog, plan, history=None, reject=None):
             if m["ret"] is not None and ffi_ret_type(m["ret"]) and not ir.type_lifetimes(m["ret"]):
                 flag = (c["ret"] is not None) if m["ret"][0] == "opt" else c["ret"]["ok"]
                 line += " raw=%d" % (1 if flag else 0)
-            if c["write"] is not None:
+            if c["write"] is not None and c["write"].get("fixed") and fixed_writers:
+                usable, content, failed = c["write"]["fixed"] - 1, b"", False
+                for ch in c["write"]["chunks"]:
+                    bch = ch.encode("utf-8")
+                    if failed:
+                        continue
+                    if len(content) + len(bch) > usable:
+                        failed = True       # all-or-nothing per chunk, sticky afterwards
+                        continue
+                    content += bch
+                line += ' write=s"%s" wfail=%d nul=1 guard=1' % (content.hex(), 1 if failed else 0)
+            elif c["write"] is not None:
                 line += ' write=s"%s"' % "".join(c["write"]["chunks"]).encode("utf-8").hex()
             for q in m["params"]:
                 t = q[1]
